@@ -192,12 +192,22 @@ static __thread char* t_open[MAXOPEN];
 static __thread int t_nopen = 0;
 static struct sigaction g_oldSegv;
 
+static void reportEvents();   // prints what was recorded so far
+static std::atomic<int> g_dying(0);
+
 static void dieSegv(int sig, siginfo_t* si) {
-    // a genuine crash: restore default disposition and let it happen again
-    struct sigaction dfl; memset(&dfl, 0, sizeof dfl); dfl.sa_handler = SIG_DFL;
-    sigaction(SIGSEGV, &dfl, nullptr);
+    // a genuine crash (of the library under test): report what was observed up to here, then let it happen again
+    if (g_dying.exchange(1)) { for (;;) pause(); }
     char buf[128]; int n = snprintf(buf, sizeof buf, "xv_c07: genuine SIGSEGV at %p (thread %d)\n", si->si_addr, t_id);
     if (write(2, buf, n)) {}
+    if (g_frozen.exchange(0)) {
+        mprotect(g_base, g_cap, PROT_READ | PROT_WRITE);
+        reportEvents();
+        printf("{\"e\":\"Crash\",\"signal\":%d,\"thread\":%d}\n", sig, t_id);
+        fflush(stdout);
+    }
+    struct sigaction dfl; memset(&dfl, 0, sizeof dfl); dfl.sa_handler = SIG_DFL;
+    sigaction(SIGSEGV, &dfl, nullptr);
 }
 
 static void onSegv(int sig, siginfo_t* si, void* ucv) {
@@ -466,6 +476,39 @@ static bool sequentialReference(const std::string& kind, const char* xsl, const 
     return WIFEXITED(st) && WEXITSTATUS(st) == 0 && !line.empty();
 }
 
+static long g_writesReported = 0;
+static void reportEvents() {
+    int n = std::min(g_nrec.load(), MAXREC);
+    long writes = 0;
+    for (int i = 0; i < n; ++i) {
+        Rec& r = g_rec[i];
+        if (!r.ready.load()) continue;
+        if (r.type == EV_START) printf("{\"e\":\"Start\",\"thread\":%d}\n", r.thread);
+        else if (r.type == EV_DONE) {
+            printf("{\"e\":\"Done\",\"thread\":%d,\"rc\":%d,\"outHash\":\"%s\",\"len\":%zu", r.thread, r.rc, hex(r.hash).c_str(), r.len);
+            if (r.err[0]) printf(",\"err\":%s", xv::jstr(r.err).c_str());
+            printf("}\n");
+        } else if (r.type == EV_WRITE) {
+            ++writes;
+            // frames: innermost first; `site` = innermost frame of any module, `frames` = the xalanc:: functions on the stack
+            std::string frames, site, mod;
+            int shown = 0;
+            for (int k = 0; k < r.nfr; ++k) {
+                Sym s = symbolise(r.fr[k], k > 0);
+                if (k == 0) { site = s.name.empty() ? "?" : s.name; mod = s.mod; }
+                if (s.mod == "harness") break;       // the worker function: end of the library part of the stack
+                if (s.name.compare(0, 8, "xalanc::") == 0 && shown < 12) {
+                    if (shown++) frames += ",";
+                    frames += xv::jstr(s.name.substr(8));
+                }
+            }
+            printf("{\"e\":\"Write\",\"thread\":%d,\"obj\":\"%s\",\"off\":%zu,\"locks\":%d,\"mod\":\"%s\",\"site\":%s,\"frames\":[%s]}\n",
+                   r.thread, g_objName[r.obj], r.off, r.locks, mod.c_str(), xv::jstr(site).c_str(), frames.c_str());
+        }
+    }
+    g_writesReported = writes;
+}
+
 // -------------------------------------------------------------------------------------------- main
 static std::string base(const char* p) { const char* s = strrchr(p, '/'); return s ? s + 1 : p; }
 
@@ -537,34 +580,8 @@ int main(int argc, char** argv) {
     // ---- thaw (nothing is destroyed: the process ends here) and report
     g_frozen.store(0);
     mprotect(g_base, g_cap, PROT_READ | PROT_WRITE);
-    int n = std::min(g_nrec.load(), MAXREC);
-    long writes = 0;
-    for (int i = 0; i < n; ++i) {
-        Rec& r = g_rec[i];
-        if (!r.ready.load()) continue;
-        if (r.type == EV_START) printf("{\"e\":\"Start\",\"thread\":%d}\n", r.thread);
-        else if (r.type == EV_DONE) {
-            printf("{\"e\":\"Done\",\"thread\":%d,\"rc\":%d,\"outHash\":\"%s\",\"len\":%zu", r.thread, r.rc, hex(r.hash).c_str(), r.len);
-            if (r.err[0]) printf(",\"err\":%s", xv::jstr(r.err).c_str());
-            printf("}\n");
-        } else if (r.type == EV_WRITE) {
-            ++writes;
-            // frames: innermost first; `site` = innermost frame of any module, `frames` = the xalanc:: functions on the stack
-            std::string frames, site, mod;
-            int shown = 0;
-            for (int k = 0; k < r.nfr; ++k) {
-                Sym s = symbolise(r.fr[k], k > 0);
-                if (k == 0) { site = s.name.empty() ? "?" : s.name; mod = s.mod; }
-                if (s.mod == "harness") break;       // the worker function: end of the library part of the stack
-                if (s.name.compare(0, 8, "xalanc::") == 0 && shown < 12) {
-                    if (shown++) frames += ",";
-                    frames += xv::jstr(s.name.substr(8));
-                }
-            }
-            printf("{\"e\":\"Write\",\"thread\":%d,\"obj\":\"%s\",\"off\":%zu,\"locks\":%d,\"mod\":\"%s\",\"site\":%s,\"frames\":[%s]}\n",
-                   r.thread, g_objName[r.obj], r.off, r.locks, mod.c_str(), xv::jstr(site).c_str(), frames.c_str());
-        }
-    }
+    reportEvents();
+    long writes = g_writesReported;
     printf("{\"e\":\"Join\",\"faults\":%ld,\"mutexWordFaults\":%ld,\"writeSites\":%ld,\"postFreezeAllocs\":%ld,\"lockCalls\":%ld,\"shadowedMutexes\":%ld,\"frozenBytes\":%zu,\"dropped\":%ld}\n",
            g_faults.load(), g_mutexWordFaults.load(), writes, g_postFreezeAllocs.load(), g_lockCalls.load(), g_shadowed.load(), frozenBytes, g_dropped.load());
     fflush(stdout);
